@@ -134,8 +134,14 @@ def step (_ : Unit) (toks : List String) : Unit × String :=
         (ns.zip ts).map (fun (n, t) => (n, t, (none : Option Term)))) }
       let conv := c.run Gen.newGuard evs
       let parts := (List.range c.levels.length).map (fun k =>
+        -- the container converters visible on class k: those of the class whose data it sees (recomputed per class
+        -- from that class's OWN annotations)
+        let hooks := match nearest conv k with
+          | none => []
+          | some j => (derivedUnpack convTerm [] (c.eff j)).map (fun (n, f) => n ++ "=" ++ (f (Term.atom "x")).render)
         match c.classData conv k with
         | .ok (fs, ns) => s!"{k}:" ++ ",".intercalate (fs.map showFmt) ++ ";" ++ ",".intercalate ns
+                          ++ ";" ++ ",".intercalate hooks
         | .error e => s!"{k}:" ++ showErr e)
       some ("ok " ++ " ".intercalate parts)
     | [op, form, fmtsS, namesS, initS, dfS, fpS, fuS, argsS, kwS] =>
